@@ -185,9 +185,9 @@ def gen_lifecycle(rng, opts):
         return (rng.choice([None, None, F(0)] + QD_POOL[:6]) if opts.get("quantize") else None,
                 rng.choice([None, None, F(0)] + QD_POOL[:6]) if opts.get("quantize") else None)
 
-    def new_sched(name_pool):
+    def new_sched(name_pool, ncb_allowed=None):
         nonlocal created, chan
-        s = lifecycle_stream(rng, tpb, pit, chan % 16, opts, ncb)
+        s = lifecycle_stream(rng, tpb, pit, chan % 16, opts, ncb if ncb_allowed is None else ncb_allowed)
         chan += 1
         q, d = qd()
         count = rng.choice([None, None, 0, 1, 2, 5]) if opts.get("counts") else None
@@ -197,12 +197,16 @@ def gen_lifecycle(rng, opts):
         return sched_op(s, q, d, count, rwd, name, rng.random() < 0.85)
 
     callbacks = []
-    for _ in range(ncb):
+    for cbi in range(ncb):
         cops = []
         for _ in range(rng.randint(0, 2)):
             r = rng.random()
             if r < 0.5:
-                cops.append(new_sched([0, 1]))
+                # streams scheduled by callback i may only call callbacks < i (no recursion), and the number of
+                # tracks is capped, so that a cyclic stream calling a scheduling callback cannot grow without bound
+                cops.append(new_sched([0, 1], cbi))
+                if not cfg.get("max_tracks"):
+                    cfg["max_tracks"] = rng.choice([3, 4, 6])
             elif r < 0.8:
                 s = lifecycle_stream(rng, tpb, pit, chan % 16, opts, 0); chan += 1
                 q, d = qd()
